@@ -1213,8 +1213,56 @@ func (*log).GC
     requires[locks] nolocks()
     loop 1
       invariant[locks] held(&l.readersMu) == 1 && (forall a int :: a != &l.readersMu ==> heldAt(a) == 0)
+// ================================================================ directory lock and read-only handles (C19)
+// Clauses labelled flock_*: over the ghost lock table of trusted/flock.spec.
+
+pred lockFile(dir string) := pathJoin(dir, ".lock")
+
+// ASSUMED (I/O, names): the segments found in a directory, ordered by base offset
+func segment.Find
+    flags assumed
+    ensures ret1 == nil ==> (forall i :: 0 <= i && i < len(ret0) ==> ret0[i].Offset >= 0)
+                            && (forall i, j :: 0 <= i && i < j && j < len(ret0) ==> ret0[i].Offset < ret0[j].Offset)
+                            && len(ret0) < 1152921504606846976
+                            && (ret0 == nil || fresh(region(ret0)))
+
+func Open
+    flags only_flock only_struct noframe
+    assigns all
+    // a writer needs the directory for itself; readers share it with readers only
+    ensures[flock_writer]   err == nil && !opts.Readonly ==> !old(lkExcl)[lockFile(dir)] && old(lkShared)[lockFile(dir)] == 0
+    ensures[flock_reader]   err == nil && opts.Readonly ==> !old(lkExcl)[lockFile(dir)]
+    // the handle keeps the lock it took ...
+    ensures[flock_held]     err == nil ==> result.(*log).lock != nil && lkPath[result.(*log).lock] == lockFile(dir)
+                                && lkMode[result.(*log).lock] == ite(opts.Readonly, 1, 2)
+                                && (!opts.Readonly ==> lkExcl[lockFile(dir)])
+                                && (opts.Readonly ==> lkShared[lockFile(dir)] == old(lkShared)[lockFile(dir)] + 1)
+    // ... and a failed Open leaves the lock table as it found it
+    ensures[flock_failed]   err != nil ==> (forall p string :: lkExcl[p] == old(lkExcl)[p] && lkShared[p] == old(lkShared)[p])
+    ensures[flock_others]   forall p string :: p != lockFile(dir) ==> lkExcl[p] == old(lkExcl)[p] && lkShared[p] == old(lkShared)[p]
+    // INV is established: segments ordered by base, only the last one is the head, a writable log owns it
+    ensures[struct_wf]      err == nil ==> typeis(result, *log) && structWf(result.(*log)) && result.(*log).opts.Readonly == opts.Readonly
+    loop 1
+      invariant[struct_idx]  -1 <= rangeindex && rangeindex < len(segments) && len(l.readers) == rangeindex + 1 && l.opts == opts && l.lock == lock && l != nil
+      invariant[struct_rdrs] forall k :: 0 <= k && k <= rangeindex ==> l.readers[k] != nil && allocated(l.readers[k]) && l.readers[k].segment.Offset == segments[k].Offset
+                                 && (l.readers[k].head <==> k == len(segments) - 1)
+      invariant[flock]       lkMode[lock] == 1 && lkPath[lock] == lockFile(dir) && lkShared[lockFile(dir)] == old(lkShared)[lockFile(dir)] + 1
+                                 && (forall p string :: lkExcl[p] == old(lkExcl)[p]) && (forall p string :: p != lockFile(dir) ==> lkShared[p] == old(lkShared)[p])
+    loop 2
+      invariant[struct_idx]  len(l.readers) == 0 && l.opts == opts && l.lock == lock && l != nil && l.writer == nil
+      invariant[flock]       lkMode[lock] == 2 && lkPath[lock] == lockFile(dir) && lkExcl[lockFile(dir)] && !old(lkExcl)[lockFile(dir)]
+                                 && (forall p string :: p != lockFile(dir) ==> lkExcl[p] == old(lkExcl)[p]) && (forall p string :: lkShared[p] == old(lkShared)[p])
+    loop 3
+      invariant[struct_idx]  -1 <= rangeindex && rangeindex < len(segments) - 1 && len(l.readers) == rangeindex + 1 && l.opts == opts && l.lock == lock && l != nil
+      invariant[struct_rdrs] forall k :: 0 <= k && k <= rangeindex ==> l.readers[k] != nil && allocated(l.readers[k]) && l.readers[k].segment.Offset == segments[k].Offset && !l.readers[k].head
+      invariant[flock]       lkMode[lock] == 2 && lkPath[lock] == lockFile(dir) && lkExcl[lockFile(dir)] && !old(lkExcl)[lockFile(dir)]
+                                 && (forall p string :: p != lockFile(dir) ==> lkExcl[p] == old(lkExcl)[p]) && (forall p string :: lkShared[p] == old(lkShared)[p])
+
 func (*log).Close
-    flags locks only_locks only_sync noframe
+    flags locks only_locks only_sync only_flock noframe
+    // C19: Close releases the directory lock
+    ensures[flock_released] ret0 == nil ==> lkMode[l.lock] == 0
+    ensures[flock_others]   forall g *flock.Flock :: g != l.lock ==> lkMode[g] == old(lkMode)[g]
     requires[sync_ok] !l.opts.Readonly ==> wOK(l.writer)
     assigns all
     ensures[sync_clean] !l.opts.Readonly && ret0 == nil ==> !fsDirty[old(l.writer.messages.Path)] && !fsDirty[old(fPath[l.writer.items.f])]
